@@ -1,6 +1,7 @@
 package rules
 
 import (
+	"go/token"
 	"fmt"
 	"sort"
 	"strings"
@@ -20,7 +21,9 @@ func init() { registry["C08"] = c08 }
 
 // expiredEdge: edge on which the loaded name is decided expired (height > Expires or height >= Expires).
 func expiredEdge(p *core.Program) core.GuardMatch {
-	return cmpGuard(p, ctxIs("BlockHeight"), storeField(rnsNames, ".Expires"), ">", ">=")
+	// expired means strictly past the expiry height: at height == Expires a name is live (the boundary every other
+	// handler uses, C08/R2)
+	return cmpGuard(p, ctxIs("BlockHeight"), storeField(rnsNames, ".Expires"), ">")
 }
 
 func c08(r *core.Run) {
@@ -34,6 +37,8 @@ func c08(r *core.Run) {
 	r.Rule("C08/R3", "payment on ownership change: Buy pays Forsale.Owner the Forsale.Price; AcceptBid pays the signer (verified owner) the Bids.Price")
 
 	r.Floor("C08/R4", gettersFaithful(r, "C08/R4", "rns"), 3, "rns store getters")
+	r.Rule("C08/R5", "the rns store keys are injective: every key builder used by a store operation of the module writes each of its parameters into the key exactly once, as it is (a listing, a name and a bid of different names can never share a slot)")
+	r.Floor("C08/R5", keyBuildersFaithful(r, "C08/R5", "rns"), 4, "rns key builders")
 	hs, err := p.Handlers()
 	if err != nil {
 		r.Undecided("C08/R1", "handlers", "", err.Error())
@@ -135,6 +140,35 @@ func c08(r *core.Run) {
 			}
 			ca := p.NormCond(ifi)
 			rel := relOnEdge(p, ca, !ca.Neg, ctxIs("BlockHeight"), storeField(rnsNames, ".Expires"))
+			if rel == "" && ca.Kind == "cmp" {
+				// the difference kept in a variable first (remaining := Expires - height on one arm, 0 on the other):
+				// judge the comparison over the arm that holds the difference
+				for _, side := range []int{0, 1} {
+					v := ca.X
+					if side == 1 {
+						v = ca.Y
+					}
+					ph, isPhi := v.(*ssa.Phi)
+					if !isPhi || core.InCycle(ph.Block()) {
+						continue
+					}
+					for _, e := range ph.Edges {
+						bo, isBo := e.(*ssa.BinOp)
+						if !isBo || bo.Op != token.SUB {
+							continue
+						}
+						cb := *ca
+						if side == 0 {
+							cb.X = bo
+						} else {
+							cb.Y = bo
+						}
+						if r2 := relOnEdge(p, &cb, !ca.Neg, ctxIs("BlockHeight"), storeField(rnsNames, ".Expires")); r2 != "" {
+							rel = r2
+						}
+					}
+				}
+			}
 			if rel == "" {
 				continue
 			}
